@@ -295,7 +295,9 @@ def _populate_expr_impl_map(extend_context: bool) -> Dict[int, Dict[str, Callabl
         "is_bad": lambda x: x.is_null()
         | x.is_infinite()
         | x.is_nan(),  # recommend only for numeric columns
-        "is_inf": lambda x: x.is_infinite(),
+        "is_inf": lambda x: x.is_infinite().fill_null(
+            False
+        ),  # a missing value is not infinite (as Pandas and SQL answer)
         "is_nan": lambda x: x.is_nan(),
         "is_null": lambda x: x.is_null(),
         "last": lambda x: x.drop_nulls().last(),  # last non-missing value, as Pandas
